@@ -345,7 +345,9 @@ def _extract_class(src, mod: Module, c: ast.ClassDef, menv: dict, done: dict) ->
                 continue  # some other class attribute
             if isinstance(t, ast.Subscript) and isinstance(t.value, ast.Name):
                 key = t.slice.value if isinstance(t.slice, ast.Constant) else None
-                remaps.append((t.value.id, key, dotted(st.value)))
+                # sly accepts the new type as a name (a string-valued class attribute) or as a string
+                new_t = st.value.value if isinstance(st.value, ast.Constant) and isinstance(st.value.value, str) else dotted(st.value)
+                remaps.append((t.value.id, key, new_t))
                 continue
             raise AnalysisError(f"{c.name}: class-body statement not understood: {norm(st)}")
         if isinstance(st, ast.AnnAssign):
